@@ -6,10 +6,15 @@ import json, os, re, shutil, subprocess, sys, tempfile
 VERIF = "/verif"
 src = sys.argv[1]
 ids = sys.argv[2:] or ["C%02d" % i for i in range(1, 21)]
+# EVAL_WORKERS=N EVAL_WORKER=i: this process handles every N-th patch and uses its own cargo target directory
+NW, WI = int(os.environ.get("EVAL_WORKERS", "1")), int(os.environ.get("EVAL_WORKER", "0"))
+TB = os.path.join(VERIF, ".cache") if NW == 1 else "/tmp/fbr-evaltb-%d" % WI
 tmp = tempfile.mkdtemp(prefix="fbr-eval-")
 res = {}
 try:
-    for k in sorted(os.listdir(src)):
+    for idx, k in enumerate(sorted(os.listdir(src))):
+        if idx % NW != WI:
+            continue
         patch = os.path.join(src, k, "patch.diff")
         if not os.path.exists(patch):
             continue
@@ -20,7 +25,7 @@ try:
             res[k] = {"error": "does not apply: " + p.stdout[-200:]}
             print(k, "DOES NOT APPLY", p.stdout[-200:].strip())
             continue
-        env = dict(os.environ, FBR_REPO=work, FBR_CACHE=os.path.join(tmp, "cache-" + k), FBR_TARGET_BASE=os.path.join(VERIF, ".cache"),
+        env = dict(os.environ, FBR_REPO=work, FBR_CACHE=os.path.join(tmp, "cache-" + k), FBR_TARGET_BASE=TB,
                    FBR_EVID_DIR=os.path.join(tmp, "evid-" + k), PYTHONPATH=VERIF + "/engine:" + VERIF)
         out = {}
         for pid in ids:
@@ -34,4 +39,4 @@ try:
         shutil.rmtree(work, ignore_errors=True)
 finally:
     shutil.rmtree(tmp, ignore_errors=True)
-json.dump(res, open(os.path.join(VERIF, ".scratch", "eval-%s.json" % os.path.basename(src.rstrip("/"))), "w"), indent=1)
+json.dump(res, open(os.path.join(VERIF, ".scratch", "eval-%s%s.json" % (os.path.basename(src.rstrip("/")), "" if NW == 1 else "-%d" % WI)), "w"), indent=1)
